@@ -39,7 +39,7 @@ _ORIG_PUSH = None
 # ----------------------------------------------------------------------------
 # instance generation
 # ----------------------------------------------------------------------------
-THEMES = ['default'] * 6 + ['highcorr_budget', 'share_lo', 'share_lo', 'doubles', 'tfixed_budget']
+THEMES = ['default'] * 6 + ['highcorr_budget', 'share_lo', 'share_lo', 'doubles', 'tfixed_budget', 'dyadic_share', 'early_shift']
 
 
 def gen_instance(rng, tier, max_admitted=5, force=None, theme=None):
@@ -48,7 +48,11 @@ def gen_instance(rng, tier, max_admitted=5, force=None, theme=None):
     highcorr_budget: noise-free geos (correlation above rho_max) with a budget range whose lower bound is active
     share_lo:        a treatment-share range whose lower bound cuts through the enumerated groups
     doubles:         geos whose series are exact doubles of each other, dyadic tolerances: ratios land exactly on the bounds
-    tfixed_budget:   a geo fixed to treatment together with a budget range"""
+    tfixed_budget:   a geo fixed to treatment together with a budget range
+    dyadic_share:    geo shares that are exact binary fractions (k/16, k/32, k/64) with a share range whose bounds are
+                     such fractions: treatment shares land exactly on the bounds
+    early_shift:     one geo is three times larger before the analysis window than inside it, with a volume tolerance:
+                     volumes taken from the whole history and from the window differ"""
   force = force or {}
   theme = theme or rng.choice(THEMES)
   sizes = [1, 2, 3, 3, 4, 4, 4, 5, 5, 5]
@@ -58,6 +62,8 @@ def gen_instance(rng, tier, max_admitted=5, force=None, theme=None):
     sizes = [7]
   n_data = force.get('n_data') or rng.choice(sizes)
   n_dates = rng.choice([8, 10, 12, 16, 20, 24])
+  if theme == 'dyadic_share':
+    n_dates = rng.choice([8, 16])      # division by the number of dates is exact
   n_test = rng.choice([1, 1, 2, 3])
   label_pool = ['10', '2', '33', 'a', 'B', 'geo7', '007', '41', 'z9', '5']
   rng.shuffle(label_pool)
@@ -71,9 +77,13 @@ def gen_instance(rng, tier, max_admitted=5, force=None, theme=None):
   if theme == 'doubles':
     scales = [2 ** k for k in range(n_data)]
     rng.shuffle(scales)
+  if theme == 'dyadic_share':
+    scales = {1: [1], 2: [3, 1], 3: [8, 5, 3], 4: [8, 4, 3, 1], 5: [6, 4, 3, 2, 1], 6: [16, 6, 4, 3, 2, 1],
+              7: [32, 12, 8, 6, 3, 2, 1]}[n_data]
+    rng.shuffle(scales)
   for g, sc in zip(geos, scales):
-    noise_amp = rng.choice([0, 1, 2, 5, 20, 60]) if theme not in ('highcorr_budget', 'doubles') else 0
-    if theme == 'doubles':
+    noise_amp = rng.choice([0, 1, 2, 5, 20, 60]) if theme not in ('highcorr_budget', 'doubles', 'dyadic_share') else 0
+    if theme in ('doubles', 'dyadic_share'):
       # exact doubles in the mean, not collinear: a zero-sum perturbation (n_dates is even)
       amp = rng.randint(1, 9)
       pert = [amp * rng.choice([1, 2, 3]) * (1 if d % 2 == 0 else -1) for d in range(n_dates)]
@@ -83,11 +93,14 @@ def gen_instance(rng, tier, max_admitted=5, force=None, theme=None):
       values[g] = [sc * b + q for b, q in zip(base, pert)]
     else:
       values[g] = [sc * b + rng.randint(-noise_amp, noise_amp) * sc + rng.randint(-3, 3) for b in base]
-    if len(set(values[g])) == 1:
+    if len(set(values[g])) == 1 and theme != 'dyadic_share':
       values[g][0] += 7
+  if theme == 'early_shift' and n_dates >= 12:
+    g0 = rng.choice(geos)
+    values[g0] = [3 * v if d < n_dates // 2 else v for d, v in enumerate(values[g0])]
   rows = []
-  missing = rng.random() < 0.15 and theme != 'doubles'
-  dup = rng.random() < 0.1 and theme != 'doubles'
+  missing = rng.random() < 0.15 and theme not in ('doubles', 'dyadic_share')
+  dup = rng.random() < 0.1 and theme not in ('doubles', 'dyadic_share')
   for g in geos:
     for d in range(n_dates):
       if missing and rng.random() < 0.05 and n_dates > 10:
@@ -149,6 +162,19 @@ def gen_instance(rng, tier, max_admitted=5, force=None, theme=None):
     if rng.random() < 0.5:
       params['geo_ratio_tolerance'] = rng.choice([1.0, 0.5, 2.0])
     params.pop('budget_range', None)
+  elif theme == 'dyadic_share':
+    lo = rng.choice([0.0625, 0.125, 0.1875, 0.25])
+    params['treatment_share_range'] = [lo, rng.choice([x for x in (0.25, 0.375, 0.4375, 0.5, 0.75) if x > lo])]
+    params.pop('budget_range', None)
+    params.pop('n_geos_max', None)
+    params['n_designs'] = rng.choice([1, 3, 1000])
+    if rng.random() < 0.7:
+      elig = None
+  elif theme == 'early_shift':
+    params['volume_ratio_tolerance'] = rng.choice([0.25, 0.5, 1.0, 0.33])
+    params['n_pretest_max'] = max(n_test + 3, n_dates // 2)
+    params.pop('budget_range', None)
+    params['n_designs'] = rng.choice([3, 1000])
   elif theme == 'tfixed_budget':
     if elig is None:
       elig = {g: [1, 1, 1] for g in geos}
@@ -166,6 +192,10 @@ def gen_instance(rng, tier, max_admitted=5, force=None, theme=None):
     params['iroas'] = rng.choice([0.0, 0])
   inst = {'geos': geos, 'n_dates': n_dates, 'rows': rows, 'elig': elig, 'params': params,
           'max_admitted': max_admitted, 'theme': theme}
+  if rng.random() < 0.08:
+    inst['min_corr_probe'] = True
+  if rng.random() < 0.15:
+    inst['late_read'] = True      # results are also read only after the caller has re-used its parameter object
   inst.update(force.get('extra', {}))
   return inst
 
@@ -368,7 +398,15 @@ def design_rec(d, pos):
           'diag_x': np.array(d.diag.x, dtype=float).tolist() if d.diag is not None and d.diag.x is not None else None,
           'diag_corr': float(d.diag.corr) if d.diag is not None and d.diag.corr is not None else None,
           'diag_impact': float(d.diag.required_impact) if d.diag is not None and d.diag.required_impact is not None else None,
+          'diag_tests': _diag_tests(d.diag),
           'diag_id': id(d.diag), 'score_diag_id': id(d.score.diag)}
+
+
+def _diag_tests(diag):
+  try:
+    return [bool(diag.corr_test), bool(diag.aatest.test_ok), bool(diag.bbtest.test_ok), bool(diag.dwtest.test_ok)]
+  except Exception as e:
+    return ['exception', type(e).__name__]
 
 
 class SearchTimeout(Exception):
@@ -379,7 +417,7 @@ def _alarm(signum, frame):
   raise SearchTimeout('search did not terminate within the time limit')
 
 
-def run_real(inst, resolved, which):
+def run_real(inst, resolved, which, late=False):
   """Fresh objects for every search. Returns dict with 'result' or 'error', push log, geo_index …"""
   import signal
   from matched_markets.methodology import tbrmmdata, tbrmatchedmarkets, heapdict
@@ -402,7 +440,8 @@ def run_real(inst, resolved, which):
     def push(self, key, item):
       log.append((sorted(item.treatment_geos), sorted(item.control_geos), [float(v) for v in item.score.score]))
       return orig_push(self, key, item)
-    heapdict.HeapDict.push = push
+    if not late:      # the push log reads each score as it is pushed; a late-read run must not (it would hide lazy evaluation)
+      heapdict.HeapDict.push = push
     try:
       if which == 'exhaustive':
         out['admitted'] = sorted(mm.geos_within_constraints)
@@ -423,6 +462,11 @@ def run_real(inst, resolved, which):
     finally:
       heapdict.HeapDict.push = orig_push
     pos = {g: i for i, g in enumerate(out['geo_index'])}
+    if late:
+      # the caller goes on to use its parameter object for something else before it looks at the designs it was given
+      par.min_corr = 0.999999
+      par.power_level = 0.5
+      par.sig_level = 0.5
     out['result'] = [design_rec(d, pos) for d in res]
     out['pushlog'] = log
   except Exception as e:  # the class is what matters
@@ -595,9 +639,18 @@ def process(job):
         n_pretest_max=int(inst['params'].get('n_pretest_max') or 90))
     resolved = resolve_budget(inst, probe)
     resolved = {k: v for k, v in resolved.items() if v is not None}
+    if inst.get('min_corr_probe'):
+      # the user takes the correlation of a design it was shown as the minimum correlation of the next search: that
+      # design's correlation then equals the threshold bit for bit ("at least min_corr" passes)
+      probe_run = run_real(inst, dict(resolved, n_designs=1000), 'exhaustive')
+      cs = sorted({d['diag_corr'] for d in probe_run.get('result', []) if d['diag_corr'] is not None and 0.8 <= d['diag_corr'] < 1})
+      if cs:
+        resolved['min_corr'] = cs[len(cs) // 2]
     rec['resolved'] = resolved
     rec['exh'] = run_real(inst, resolved, 'exhaustive')
     rec['greedy'] = run_real(inst, resolved, 'greedy')
+    if inst.get('late_read'):
+      rec['late'] = {w: run_real(inst, resolved, w, late=True) for w in ('exhaustive', 'greedy')}
     shares = rec['exh'].get('geo_share') or rec['greedy'].get('geo_share')
     if shares is None:
       rec['no_data_object'] = True      # construction of the data object was rejected
@@ -1143,6 +1196,9 @@ def judge_c04(out, res):
             got = tuple(d['score'])
             if has_nan(want) or has_nan(got):
               pass
+            elif got[0] != (1.0 if d['diag_corr'] >= p.get('min_corr', 0.8) else 0.0):
+              prob = (f'correlation test in the score is {got[0]} although the design\'s correlation {d["diag_corr"]!r} is '
+                      f'{"at least" if d["diag_corr"] >= p.get("min_corr", 0.8) else "below"} min_corr = {p.get("min_corr", 0.8)!r}')
             elif got[:4] != want[:4]:
               prob = f'test outcomes in the score {got[:4]} differ from those recomputed from the series {want[:4]}'
             elif abs(got[4] - want[4]) > 1e-12:
@@ -1159,6 +1215,32 @@ def judge_c04(out, res):
         if prob:
           f['symptom'] = 'diagnostics-mismatch'
           out.oracle_violation(f, case_of(r, which), f'{which} design #{pos_i} T={d["Tids"]} C={d["Cids"]}: {prob}')
+    # designs that are read only after the caller has re-used its parameter object must be the designs of the search
+    for which, w in (('exh', 'exhaustive'), ('greedy', 'greedy')):
+      late = (r.get('late') or {}).get(w)
+      rr = r[which]
+      if late is None or 'result' not in rr:
+        continue
+      f = facts_of(r, w)
+      f['symptom'] = 'late-read'
+      if 'result' not in late:
+        out.oracle_violation(f, case_of(r, which), f'{w} search raised {late.get("error")} in a second identical run')
+        continue
+      if [(d['T'], d['C']) for d in late['result']] != [(d['T'], d['C']) for d in rr['result']]:
+        if len({tuple(d['score']) for d in rr['result']}) == len(rr['result']):
+          out.oracle_violation(f, case_of(r, which), f'{w} search: a second identical run returns different designs')
+        continue
+      for i, (a, b) in enumerate(zip(rr['result'], late['result'])):
+        same_score = all((math.isnan(x) and math.isnan(y)) or x == y for x, y in zip(a['score'], b['score']))
+        same_diag = a['diag_corr'] == b['diag_corr'] and (a['diag_impact'] == b['diag_impact'] or
+                                                         (math.isnan(a['diag_impact']) and math.isnan(b['diag_impact'])))
+        want_tests = [bool(v) for v in a['score'][:4]] if not has_nan(a['score'][:4]) else None
+        if not same_score or not same_diag or (want_tests is not None and b['diag_tests'] != want_tests):
+          out.oracle_violation(f, case_of(r, which),
+                               f'{w} design #{i} T={a["Tids"]} C={a["Cids"]}: read after the caller changed min_corr / power_level / sig_level on '
+                               f'its parameter object, the design reports score {b["score"]}, tests {b["diag_tests"]}, impact {b["diag_impact"]}; '
+                               f'read at once it reports {a["score"]}, impact {a["diag_impact"]}')
+          break
     key = nontrivial_key(r)
     out.count(key)
 
